@@ -21,6 +21,18 @@ CLAIMED = {
             "Trusts the in-memory stream stubs (FaultyReader/FaultySink) to model files; images come from seeded worlds bounded as in DESIGN section 5; bit flips inside a complete image are out of scope (no checksum in the format).",
             "DESIGN.md section 6 (C09)"),
 }
+CLAIMED.update({
+    "C04": ("exploration",
+            "seeded operation-history simulation of reused workers + op-level scheduler over one shared tokenizer, replica oracle (fresh worker)",
+            "Seeded search over histories (reset/tokenize 0-3x/read/iter/counter ops/recreate over adversarial sentence sequences) of 1-4 simulated caller tasks sharing one Tokenizer, with the interleaving decided by the plan; after every read the tokens must equal a fresh worker's. Sampled, not exhaustive; a Send+Sync probe turns loss of thread-shareability into a reported violation.",
+            "Interleaving is at operation granularity on one OS thread (no std::sync in vibrato to intercept); the fresh-worker replica is the oracle, so a bug that affects fresh and reused workers alike is outside this property.",
+            "DESIGN.md section 6 (C04)"),
+    "C13": ("exploration",
+            "seeded history simulation of the reorder loop against a reference counter recomputed from lattice dumps; reorder->map round trip",
+            "Seeded search over sequences of lines (empty, repeated, all-space, long-then-short) with extra tokenize/update/init calls; the statistics must be a permutation of 1..dim ordered by (reference count desc, id asc) with bit-identical probabilities, where the reference counts one connection-cost evaluation per predecessor/node pair of pristine lattices; the resulting mapping must be accepted and preserve tokenization. Sampled, not exhaustive.",
+            "The reference counter reads the lattice through hook H2 (real lattice construction); the reorder/map CLIs are mirrored, not executed.",
+            "DESIGN.md section 6 (C13)"),
+})
 PENDING = {
 }
 
